@@ -89,6 +89,19 @@ def service_oracle(ctx: Ctx, problem):
         ctx.dist["rows_checked"] += len(t.pt) + len(t.pt_real)
 
 
+def gen_zero_recovery(rng):
+    """Shifted hot streams entirely below the shifted cold streams (heat recovery exactly 0) while
+    the real ranges still overlap — the real table must then be re-positioned by a full offset."""
+    T = float(rng.randrange(8, 30) * 10)
+    dh, dc = rng.choice([5.0, 10.0, 2.5]), rng.choice([5.0, 10.0, 2.5])
+    ov = rng.choice([0.25, 0.5, 0.9]) * (dh + dc)
+    out = [{"name": "H1", "zone": "A", "t_supply": T + ov / 2, "t_target": T - float(rng.randrange(2, 8) * 10), "heat_flow": float(rng.randrange(1, 60) * 100), "dt_cont": dh, "htc": 1.0},
+           {"name": "C1", "zone": "A", "t_supply": T - ov / 2, "t_target": T + float(rng.randrange(2, 8) * 10), "heat_flow": float(rng.randrange(1, 60) * 100), "dt_cont": dc, "htc": 1.0}]
+    if rng.random() < 0.5:
+        out.append({"name": "H2", "zone": "A", "t_supply": T - 20.0, "t_target": T - 90.0, "heat_flow": float(rng.randrange(1, 30) * 100), "dt_cont": dh, "htc": 1.0})
+    return out
+
+
 def impl_process_cascade(streams, shifted):
     """get_process_heat_cascade on collections built as data_preparation builds them."""
     from OpenPinch.analysis.problem_table_analysis import get_process_heat_cascade, get_heat_recovery_target_from_pt
@@ -112,6 +125,8 @@ def run(ctx: Ctx):
     cases = [c for c in corpus if c["kind"] == "pcascade"]
     for _ in range(ctx.n(300, 5000)):
         cases.append({"kind": "pcascade", "streams": P.gen_streams(ctx.rng), "shifted": ctx.rng.random() < 0.5})
+    for _ in range(ctx.n(40, 600)):
+        cases.append({"kind": "pcascade", "streams": gen_zero_recovery(ctx.rng), "shifted": False})
     lines, impl = [], []
     for c in cases:
         pt, objs = impl_process_cascade(c["streams"], c["shifted"])
@@ -150,6 +165,7 @@ def run(ctx: Ctx):
     # (a) service level
     probs = [c["problem"] for c in corpus if c["kind"] == "service"]
     probs += [P.gen_problem(ctx.rng) for _ in range(ctx.n(150, 3000))]
+    probs += [{"streams": gen_zero_recovery(ctx.rng), "utilities": [], "options": {}} for _ in range(ctx.n(20, 300))]
     for pr in probs:
         ctx.count({"kind": "service", "n_streams": len(pr["streams"]), "zones": sorted({s["zone"] for s in pr["streams"]}),
                    "n_util": len(pr["utilities"])}, True, ["service_problem"])
